@@ -165,18 +165,43 @@ class World:
         T['desc_dict'] = {'cond': ['c1', 'c2', 'c3', 'c4', 'c5'], 'k': 1}
         T['pdesc_dict'] = {'cond': ['c1', 'c2', 'c3', 'c4', 'c5']}
         T['desc_lists'] = {'cond': ['c1', 'c2', 'c3', 'c4', 'c5'], 'cat': np.array([1, 1, 2, 2, 3])}
+        T['desc_lists_idx'] = {'cond': ['c1', 'c2', 'c3', 'c4', 'c5'], 'cat': np.array([1, 1, 2, 2, 3]), 'index': [0, 1, 2, 3, 4]}
         T['desc_lists2'] = {'cond': ['c6', 'c7'], 'cat': np.array([4, 4]), 'index': [0, 1]}
         T['rdesc_dict'] = {'subj': ['a', 'b', 'c']}
         T['evals'] = rng.uniform(0.1, 0.9, (3, 6))
         T['variances'] = np.cov(rng.uniform(0.1, 0.9, (5, 30)))
         T['nc'] = rng.uniform(0.8, 0.95, (2, 6))
         T['tensor'] = rng.uniform(0.5, 3, (4, 3, 2))
+        # coherent inputs of the test functions: 8 samples x 3 models, 3 model pairs, a 2 x 8 ceiling
+        T['evals_t'] = rng.uniform(0.1, 0.9, (8, 3))
+        T['evals_t3'] = rng.uniform(0.1, 0.9, (8, 3, 4))
+        T['nc_t'] = rng.uniform(0.8, 0.95, (2, 8))
+        T['var_t'] = rng.uniform(0.01, 0.02, 3)
+        T['dvar_t'] = rng.uniform(0.01, 0.02, 3)
+        T['ncvar_t'] = rng.uniform(0.01, 0.02, (3, 2))
+        T['spd5'] = np.eye(5) + 0.2
+        for key, k in (('rdms_euc', 2), ('rdms_euc2', 1)):
+            pats = rng.normal(size=(k, nc, 12))
+            sq = ((pats[:, :, None, :] - pats[:, None, :, :]) ** 2).mean(axis=-1)
+            iu = np.triu_indices(nc, 1)
+            T[key] = RDMs(np.array([m[iu] for m in sq]), dissimilarity_measure='squared euclidean',
+                          pattern_descriptors={'cond': ['c1', 'c2', 'c3', 'c4', 'c5']})
         # tracked objects are pairwise disjoint at the start: the list holds its own two models
         T['models'] = [ModelFixed('fa', RDMs(rng.uniform(0.2, 2, (1, n)), pattern_descriptors={'cond': ['c1', 'c2', 'c3', 'c4', 'c5'], 'stim': np.array([100, 101, 102, 103, 104])})),
                        ModelWeighted('wb', RDMs(rng.uniform(0.2, 2, (2, n)), pattern_descriptors={'cond': ['c1', 'c2', 'c3', 'c4', 'c5'], 'stim': np.array([100, 101, 102, 103, 104])}))]
         for key, cls, src in (('m_fixed', ModelFixed, 'model_rdm1'), ('m_weighted', ModelWeighted, 'model_rdms'),
                               ('m_select', ModelSelect, 'model_rdms'), ('m_interp', ModelInterpolate, 'model_rdms')):
             T[key] = cls(key, T[src].copy())
+        from rsatoolbox.model.model_family import ModelFamily
+        T['family'] = ModelFamily([ModelFixed(f'f{i}', RDMs(rng.uniform(0.2, 2, (1, n)),
+                                                           pattern_descriptors={'cond': ['c1', 'c2', 'c3', 'c4', 'c5']}))
+                                   for i in range(3)])
+        T['ds_i'] = Dataset(rng.uniform(0.5, 3, (3, nch)), obs_descriptors={'conds': ['c1'] * 3, 'fold': np.array([1, 2, 3])})
+        T['ds_j'] = Dataset(rng.uniform(0.5, 3, (3, nch)), obs_descriptors={'conds': ['c2'] * 3, 'fold': np.array([1, 2, 3])})
+        T['tds_conds'] = TemporalDataset(rng.uniform(0.5, 3, (6, 3, 4)), descriptors={'subj': 's2'},
+                                         obs_descriptors={'conds': ['c1', 'c2', 'c3', 'c1', 'c2', 'c3']},
+                                         channel_descriptors={'vox': ['v1', 'v2', 'v3']},
+                                         time_descriptors={'time': np.array([0.0, 0.1, 0.2, 0.3])})
         from rsatoolbox.rdm.rdms import permute_rdms
         T['rdms_perm'] = permute_rdms(T['rdms'].copy(), np.array([2, 0, 1, 4, 3]))
         from rsatoolbox.inference import eval_fixed
@@ -209,6 +234,10 @@ BY_NAME = {
     'new_order': np.array([4, 2, 0, 1, 3]), 'idx': [0, 2], 'weights': None, 'sigma_k': None,
     'cv_descriptor': 'fold', 'k': 2, 'category_selector': 'cat',
 }
+
+
+TEST_FUNCTIONS = ('all_tests', 'nc_tests', 'pair_tests', 'zero_tests', 'ranksum_pair_test', 'ranksum_value_test',
+                  't_test_0', 't_test_nc', 't_tests')
 
 
 class Uncovered(Exception):
@@ -288,6 +317,10 @@ def build_args(world, fn, owner=None, qual='', variant=0):
             kwargs[pname] = val
         else:
             args.append(val)
+    if name == 'pairs_by_percentile':
+        kwargs.update({'cond': 'c2'} if variant != 1 else {'stim': 102})
+        if variant == 2:
+            kwargs.update(min=20, max=80)
     return args, kwargs, used
 
 
@@ -333,7 +366,7 @@ def _special(world, qual, pname, owner, variant=0):
         if pname == 'by':
             if 'channel' in name:
                 return ('vox', [])
-            if 'time' in name:
+            if 'time' in name or name == 'convert_to_dataset':
                 return ('time', [])
             return ('conds', [])
         if pname == 'value':
@@ -361,6 +394,48 @@ def _special(world, qual, pname, owner, variant=0):
             return (io.BytesIO(), [])
     if owner == 'Result' and pname == 'filename':
         return (io.BytesIO(), [])
+    if name in TEST_FUNCTIONS:
+        tt = ['t-test', 'bootstrap', 'ranksum'][variant % 3]
+        if pname == 'evaluations':
+            k = 'evals_t3' if name.startswith('ranksum') or (name in ('all_tests', 'pair_tests', 'zero_tests', 'nc_tests')
+                                                              and tt == 'ranksum') else 'evals_t'
+            return (T[k], [k])
+        if pname == 'test_type':
+            return (tt, [])
+        if pname == 'noise_ceil':
+            return (0.9, []) if name == 't_test_nc' else (T['nc_t'], ['nc_t'])
+        if pname == 'model_var':
+            return (T['var_t'], ['var_t'])
+        if pname == 'diff_var':
+            return (T['dvar_t'], ['dvar_t'])
+        if pname == 'noise_ceil_var':
+            return (T['ncvar_t'], ['ncvar_t'])
+        if pname == 'variances':
+            k = {'t_tests': 'dvar_t', 't_test_0': 'var_t', 't_test_nc': 'var_t'}[name]
+            return (T[k], [k])
+        if pname == 'dof':
+            return (7, [])
+        if pname == 'comp_value':
+            return (0.3, [])
+    if owner == 'ModelFamily' and pname == 'family_index':
+        return ([5, 3, 6][variant % 3], [])
+    if owner == 'Result' and pname == 'ci_percent':
+        return (0.9, [])
+    if owner == 'Result' and name == 'get_ci' and pname == 'test_type' and variant:
+        return (['t-test', 'bootstrap', 't-test'][variant], [])
+    if name in ('square_category_binary_mask', 'square_between_category_binary_mask'):
+        return {'category_idxs': ([0, 2, 3], []), 'category_1_idxs': ([0, 1], []), 'category_2_idxs': ([3, 4], []),
+                'size': (5, [])}.get(pname, _NOARG)
+    if name == 'compare_neg_riemannian_distance':
+        # needs RDMs of real patterns (positive definite second moments)
+        return {'rdm1': (T['rdms_euc'], ['rdms_euc']), 'rdm2': (T['rdms_euc2'], ['rdms_euc2']),
+                'sigma_k': ((T['spd5'], ['spd5']) if variant == 1 else (None, []))}.get(pname, _NOARG)
+    if name == 'calc_one_similarity':
+        return {'data_i': (T['ds_i'], ['ds_i']), 'data_j': (T['ds_j'], ['ds_j']),
+                'cv_desc_i': (T['ds_i'].obs_descriptors['fold'], ['ds_i']),
+                'cv_desc_j': (T['ds_j'].obs_descriptors['fold'], ['ds_j']),
+                'method': (['euclidean', 'correlation', 'poisson'][variant % 3], []),
+                'weighting': (['number', 'equal', 'number'][variant % 3], [])}.get(pname, _NOARG)
     if pname == 'evaluations' and name != 'Result':
         return (T['evals'], ['evals'])
     if pname in ('variance', 'variances'):
@@ -436,6 +511,8 @@ def _special(world, qual, pname, owner, variant=0):
         return {'descriptor': (T['desc_lists']['cat'], ['desc_lists']), 'value': ([1, 3], [])}.get(pname, _NOARG)
     if name in ('subset_descriptor', 'extract_dict', 'format_descriptor', 'parse_input_descriptor',
                 'check_descriptor_length', 'dict_to_list', 'append_descriptor', 'desc_eq'):
+        if name == 'append_descriptor' and pname == 'descriptor':
+            return (T['desc_lists_idx'], ['desc_lists_idx'])
         if pname in ('descriptor', 'descriptors', 'dictionary', 'd_dict', 'a'):
             return (T['desc_lists'], ['desc_lists'])
         if pname == 'b':
@@ -456,8 +533,6 @@ def _special(world, qual, pname, owner, variant=0):
         return ('time', [])
     if name == 'nested_odd_even_split':
         return {'l1_obs_desc': ('fold', []), 'l2_obs_desc': ('conds', [])}.get(pname, _NOARG)
-    if name == 'calc_one_similarity':
-        return _NOARG
     return _NOARG
 
 
@@ -495,7 +570,7 @@ def discover():
     return out
 
 
-OWNER_OBJ = {'Result': 'result', 'RDMs': 'rdms', 'Dataset': 'dataset', 'TemporalDataset': 'tds', 'ModelFixed': 'm_fixed',
+OWNER_OBJ = {'ModelFamily': 'family', 'Result': 'result', 'RDMs': 'rdms', 'Dataset': 'dataset', 'TemporalDataset': 'tds', 'ModelFixed': 'm_fixed',
              'ModelWeighted': 'm_weighted', 'ModelSelect': 'm_select', 'ModelInterpolate': 'm_interp'}
 
 
